@@ -44,7 +44,7 @@ Definition op_bytes (kind : Z) (a b c : Z) : bytes :=
 Fixpoint dec_cc14ops (l : list Z) : list cc14op :=
   match l with
   | k :: a :: b :: c :: t =>
-      (if Z.eqb k 2 then CReset else CFeed (op_bytes k a b c)) :: dec_cc14ops t
+      (if Z.eqb k 2 || Z.eqb k 8 then CReset else CFeed (op_bytes k a b c)) :: dec_cc14ops t
   | _ => []
   end.
 
@@ -390,7 +390,7 @@ Definition enc_slot (o : option bytes) : list Z :=
 Fixpoint dec_pnops (l : list Z) : list pnop :=
   match l with
   | k :: a :: b :: c :: t =>
-      (if Z.eqb k 2 then NReset else NFeed (op_bytes k a b c)) :: dec_pnops t
+      (if Z.eqb k 2 || Z.eqb k 8 then NReset else NFeed (op_bytes k a b c)) :: dec_pnops t
   | _ => []
   end.
 
@@ -505,7 +505,7 @@ Definition dec_timeout (z : Z) : N :=
 Fixpoint dec_sops (l : list Z) : list sop :=
   match l with
   | k :: a :: b :: c :: t =>
-      (if Z.eqb k 2 then OReset
+      (if Z.eqb k 2 || Z.eqb k 8 then OReset
        else if Z.eqb k 3 then OPoll (nz a)
        else if Z.eqb k 7 then OPoll (nz a)
        else if Z.eqb k 4 then OTick (nz a)
